@@ -118,6 +118,12 @@ CLAIMED = {
    note="The theorem covers identifier escaping only; 'compiles and imports for every accepted package' is evidence from generating and building samples, not a proof. MATLAB output cannot be executed here (no MATLAB/Octave); HDF5 C++ is generated but not compiled (no HDF5 headers); C++ is compiled against the stand-in array header. Two defects fixed (names colliding after case conversion; Python keyword as union-case class). Open known findings: namespace named after a reserved word / runtime namespace; Python alias to a bare type parameter; inline union in an imported alias (Python); type parameter used only inside arrays (Python).",
    technique="Lean 4 proof over regenerated reserved-word tables + in-process correspondence of identifier functions + generate/compile/import matrix",
    design="§7 C08"),
+ "C20": dict(
+   engine="watch",
+   text="Kernel-checked (the bookkeeping a theorem can carry): in the state-machine model of dedupLoop with at most one regeneration in flight and a remembered pending firing (the code after the fix), every quiescent state reachable by any interleaving of saves, timer firings and completions has the output of the final contents on disk (when those are valid), invalid intermediate contents never reach the disk; one goroutine per firing (the code before the fix) can be overtaken and leave stale output, converging only on first-in-first-out schedules; 'skip when busy' drops the last save. Runtime part by execution: the real yardl generate --watch, built from the current tree with the verif tag (one regeneration can be delayed after it has read the package), is driven with real file saves - a slow regeneration overtaken by a fast one, saves during a regeneration, bursts, invalid intermediate contents, edits of a second file, random timings - and once edits stop the output directories must equal those of a one-shot generate of the final contents, with the watcher still running.",
+   note="The model cannot exhibit goroutine scheduling, fsnotify delivery or partially written files: those are covered only by the runs (timing-dependent, bounded). Hook: verifHook in generateImpl (build tag verif). One defect fixed (concurrent regenerations could leave stale output).",
+   technique="Lean 4 proof (invariant over all interleavings of the watch state machine) + schedule-driven execution of the real watcher with a verif-tagged delay hook",
+   design="§7 C20"),
 }
 NOT_YET = "machinery for this property is not built yet in this round (see DESIGN.md §10 build order)"
 checks, na = [], []
@@ -141,9 +147,9 @@ for p in props:
 m = {
  "version": 1,
  "setup_cmd": "./setup.sh",
- "hooks": {"guard": "verif", "enable": "go build -tags verif (no hook commits exist yet; checks build /repo/tooling/cmd/yardl as is)",
+ "hooks": {"guard": "verif", "enable": "go build -tags verif ./cmd/yardl (only checks/c20.py builds with the tag: verifHook(\"after-validate\") in generateImpl delays one regeneration when VERIF_WATCH_DELAY_FILE names an existing file; every other check builds /repo/tooling/cmd/yardl without the tag, where verifHook is an empty function)",
            "baseline_off_cmd": "cd /repo/tooling && GOFLAGS=-mod=mod GOPROXY=off go test -vet=off -count=1 ./...",
-           "source_commits": [], "add_only": True},
+           "source_commits": ["1a3ef2c"], "add_only": True},
  "engines": [
    {"name": "expr", "path": "lean/YardlModel/Expr.lean", "serves_properties": ["C19"],
     "kind_free_text": "typing/parenthesisation model of computed fields over tables regenerated from /repo (harness/py/gen_tables.py, harness/go/cmd/inproc)"},
@@ -153,6 +159,20 @@ m = {
     "kind_free_text": "sorted sinks / map iteration as adversarial permutation; sites from harness/go/cmd/facts"},
    {"name": "cli", "path": "lean/YardlModel/Cli.lean", "serves_properties": ["C11"],
     "kind_free_text": "generateImpl as a fallible call sequence over an abstract FS; call list from harness/go/cmd/facts pipeline"},
+   {"name": "plan", "path": "lean/YardlModel/Plan.lean", "serves_properties": ["C14"],
+    "kind_free_text": "serializer expressions of the back ends and the plan they denote; harness/py/planparse.py parses them out of generated Python / MATLAB"},
+   {"name": "syntax", "path": "lean/YardlModel/Syntax.lean", "serves_properties": ["C13"],
+    "kind_free_text": "shorthand AST / YAML type nodes / dsl.Type tree and its consumer view; Topo.lean: dependency sort; harness/py/spellgen.py + inproc typetree"},
+   {"name": "evolution", "path": "lean/YardlModel/Evolution.lean", "serves_properties": ["C05", "C06"],
+    "kind_free_text": "change detection (cmp, verdicts) and value conversion (conv) between schema versions; harness/py/evogen.py generates version chains"},
+   {"name": "rules", "path": "lean/YardlModel/Rules.lean", "serves_properties": ["C09"],
+    "kind_free_text": "traversal completeness; rule-violation injection matrix in checks/c09.py; visitor facts from harness/go/cmd/facts"},
+   {"name": "frontend", "path": "lean/YardlModel/Topo.lean", "serves_properties": ["C10"],
+    "kind_free_text": "termination rank from the dependency sort; resource-limited CLI fuzzing in checks/c10.py"},
+   {"name": "names", "path": "lean/YardlModel/Names.lean", "serves_properties": ["C08"],
+    "kind_free_text": "identifier derivation over regenerated reserved-word tables; generate/compile/import matrix in checks/c08.py"},
+   {"name": "watch", "path": "lean/YardlModel/Watch.lean", "serves_properties": ["C20"],
+    "kind_free_text": "dedupLoop as a state machine over content versions; checks/c20.py drives the real watcher (verif-tagged build)"},
    {"name": "proto", "path": "lean/YardlModel/Proto.lean", "serves_properties": ["C07"],
     "kind_free_text": "reader/writer step-order state machines (implementation encodings vs specification positions)"},
    {"name": "schema", "path": "lean/YardlModel/Schema.lean", "serves_properties": ["C04", "C15"],
